@@ -97,13 +97,18 @@ def replay(job):
     return res
 
 
+def call(job):
+    mod = load_module(job["module"], job.get("param"))
+    return {"value": getattr(mod, job["func"])(**(job.get("args") or {}))}
+
+
 def main():
     mode, jobfile = sys.argv[1], sys.argv[2]
     with open(jobfile) as f:
         job = json.load(f)
     sys.setrecursionlimit(10000)
     try:
-        res = analyze(job) if mode == "analyze" else replay(job)
+        res = analyze(job) if mode == "analyze" else (call(job) if mode == "call" else replay(job))
     except BaseException as e:  # noqa
         res = {"worker_error": repr(e), "tb": traceback.format_exc()[-3000:]}
     sys.stdout.write("\n@@RESULT@@" + json.dumps(res) + "\n")
